@@ -22,6 +22,8 @@ pub uninterp spec fn bw_inner<W: ?Sized + std::io::Write>(w: &BufWriter<W>) -> &
 pub uninterp spec fn bw_buf<W: ?Sized + std::io::Write>(w: &BufWriter<W>) -> Seq<u8>;
 pub uninterp spec fn bw_cap<W: ?Sized + std::io::Write>(w: &BufWriter<W>) -> nat;
 
+/// ghost history of the file contents after each completed write(2) issued through this writer (crash points)
+pub uninterp spec fn bw_trace<W: ?Sized + std::io::Write>(w: &BufWriter<W>) -> Seq<Seq<u8>>;
 pub struct BwState { pub file: Seq<u8>, pub buf: Seq<u8>, pub cap: nat }
 pub open spec fn bw<W: ?Sized + std::io::Write>(w: &BufWriter<W>) -> BwState {
     BwState { file: inner_bytes(bw_inner(w)), buf: bw_buf(w), cap: bw_cap(w) }
@@ -39,15 +41,24 @@ pub open spec fn bw_write_all_ok(s: BwState, d: Seq<u8>) -> BwState {
         if d.len() >= s1.cap { BwState { file: s1.file + d, ..s1 } } else { BwState { buf: s1.buf + d, ..s1 } }
     }
 }
-/// the sequence of file contents visible between the write(2) calls of one write_all (crash points)
-pub open spec fn bw_write_all_mid(s: BwState, d: Seq<u8>) -> Seq<u8> {
-    if d.len() > s.cap - s.buf.len() { s.file + s.buf } else { s.file }
+/// the file contents after each write(2) that one successful write_all performs (0, 1 or 2 of them)
+pub open spec fn bw_write_all_states(s: BwState, d: Seq<u8>) -> Seq<Seq<u8>> {
+    if d.len() < s.cap - s.buf.len() { Seq::<Seq<u8>>::empty() }
+    else {
+        let flushed = d.len() > s.cap - s.buf.len() && s.buf.len() > 0;
+        let f1 = if d.len() > s.cap - s.buf.len() { s.file + s.buf } else { s.file };
+        let a = if flushed { seq![f1] } else { Seq::<Seq<u8>>::empty() };
+        let cap_after = d.len() > s.cap - s.buf.len();
+        let buf_after: Seq<u8> = if cap_after { Seq::<u8>::empty() } else { s.buf };
+        if d.len() >= s.cap { a + seq![f1 + d] } else { a }
+    }
 }
 
 pub assume_specification<W: ?Sized + std::io::Write> [<BufWriter<W> as Write>::write_all] (w: &mut BufWriter<W>, d: &[u8]) -> (r: Result<(), std::io::Error>)
     ensures
         bw(final(w)).cap == bw(old(w)).cap,
         r is Ok ==> bw(final(w)) == bw_write_all_ok(bw(old(w)), d@),
+        r is Ok ==> bw_trace(final(w)) == bw_trace(old(w)) + bw_write_all_states(bw(old(w)), d@),
         // on failure some prefix of (buffer ++ data) may have reached the file or stay buffered
         r is Err ==> exists|k: int| 0 <= k <= d@.len() && #[trigger] bw_all(bw(final(w))) == bw_all(bw(old(w))) + d@.subrange(0, k);
 
@@ -55,6 +66,7 @@ pub assume_specification<W: ?Sized + std::io::Write> [<BufWriter<W> as Write>::f
     ensures
         bw(final(w)).cap == bw(old(w)).cap,
         r is Ok ==> bw(final(w)).file == bw(old(w)).file + bw(old(w)).buf && bw(final(w)).buf.len() == 0,
+        r is Ok ==> bw_trace(final(w)) == (if bw(old(w)).buf.len() > 0 { bw_trace(old(w)).push(bw(old(w)).file + bw(old(w)).buf) } else { bw_trace(old(w)) }),
         r is Err ==> bw_all(bw(final(w))) == bw_all(bw(old(w)));
 
 pub assume_specification<W: ?Sized + std::io::Write> [BufWriter::<W>::get_ref] (w: &BufWriter<W>) -> (r: &W)
